@@ -923,6 +923,21 @@ func genC05(r *Run) {
 			withNeighbours(tlvb(24, nw))
 		}
 	}
+	// nesting depth ladder: relay messages inside relay messages, IA options inside IA options, to depths around the
+	// limits people pick (8, 16, 32, 64, 128, 255/256) - nesting alone is never a reason to reject
+	for _, depth := range []int{1, 2, 7, 8, 9, 15, 16, 17, 31, 32, 33, 34, 63, 64, 65, 100, 127, 128, 129, 200, 255, 256, 257} {
+		w := append([]byte{1, 1, 2, 3}, tlvb(8, []byte{0, 1})...)
+		for d := 0; d < depth && len(w) < 60000; d++ {
+			w = append(append([]byte{byte(12 + d%2), byte(d)}, make([]byte, 32)...), tlvb(9, w)...)
+		}
+		add(w)
+		var ia []byte
+		for d := 0; d < depth && len(ia) < 60000; d++ {
+			ia = tlvb(uint16([]int{3, 25, 4, 5, 26}[d%5]), append(make([]byte, []int{12, 12, 4, 24, 25}[d%5]), ia...))
+		}
+		add(append([]byte{1, 1, 2, 3}, ia...))
+		r.Count("nesting-depth-ladder")
+	}
 	// random / mutated messages up to 4096 octets
 	n := r.N(1500, 120000)
 	for i := 0; i < n; i++ {
